@@ -11,6 +11,9 @@ package streams
 //	           uci and datagen call Search.Go), compared with a solo run of the same request; node
 //	           counts are read from the printed lines. See runC08par.
 //
+//	c08clear   an engine that served k tiny searches and was then cleared (Clear / ucinewgame) must be
+//	           indistinguishable from a fresh engine. See runC08clear.
+//
 // Request fields used by c08: TTKB, HasDepth/Depth, SoftNodes = S, StopArg = number of plies to play,
 // Warm = number of busy goroutines (load), Nodes = hard cap given together with the soft limit
 // (-1: none).
@@ -48,6 +51,7 @@ func init() {
 	hx.Register(&hx.Stream{Name: "c08", Gen: genC08, Run: runC08})
 	hx.Register(&hx.Stream{Name: "c08budget", Gen: genC06, Run: runC06})
 	hx.Register(&hx.Stream{Name: "c08par", Gen: genC08par, Run: runC08par})
+	hx.Register(&hx.Stream{Name: "c08clear", Gen: genC08clear, Run: runC08clear})
 }
 
 type sbStep struct {
@@ -554,5 +558,179 @@ func genC08par(rng *hx.Rng, n int, tier string, emit func(hx.Input)) {
 			Desc:       r.desc() + " (no WithCounters; warm = concurrent engines, stop-arg = plies)",
 			Tags:       tags,
 			NonTrivial: sbFinal(b) == 0})
+	}
+}
+
+// ---------------------------------------------------------------------------------------------
+// c08clear: "after Clear the engine behaves like a fresh one"
+//
+// Request fields: TTKB, Warm = k = number of tiny searches served before the clear, StopKind = how the
+// clear arrives (0 Search.Clear, 1 `ucinewgame` through a UCI driver owning the engine), StopArg =
+// selector of the tiny requests (which roots, which limits), Nodes / SoftNodes / HasDepth+Depth = the
+// follow-up request, root = the follow-up root.
+// Tiny request i: root number (StopArg + 7 i) of the fixed + epd roots, limit depth 1 when
+// (StopArg + i) is divisible by 3, otherwise WithNodes(1 + (StopArg + 13 i) mod 50).
+//
+// Observation:
+//
+//	k viaUCI digestEq followStep followWhat followNodes gen
+//
+// digestEq: 1 when every table bucket, every history / capture history / continuation cell and the
+// generation counter of the cleared engine equal those of a fresh engine of the same table size, 0
+// when they differ, 2 when the engine's fields could not be reached. followStep: -1 when the
+// follow-up search gave identical move, score, ponder, nodes and printed lines (time excluded) on the
+// cleared and on the fresh engine (followWhat as in c08). gen: generation counter right after the clear.
+
+func sbTinyRoots() []sbRoot {
+	return append(append([]sbRoot(nil), sbRoots()...), sbEpdRoots()...)
+}
+
+func runC08clear(a hx.Args) string {
+	r, _, ok := sbDecode(a, 0)
+	if !ok {
+		return "badinput"
+	}
+	if sbBoard(r.Root) == nil {
+		return "badroot"
+	}
+	if r.Nodes < 0 && r.SoftNodes <= 0 && !(r.HasDepth && r.Depth <= 6) && sbFinal(sbBoard(r.Root)) == 0 {
+		return "badinput" // the follow-up would never stop
+	}
+	k := r.Warm
+	if k < 0 {
+		k = 0
+	}
+	if k > 5000 {
+		k = 5000
+	}
+	tt := r.TTKB
+	if tt < 32 {
+		tt = 32
+	}
+	if tt > 4096 {
+		tt = 4096
+	}
+	roots := sbTinyRoots()
+	sel := r.StopArg
+	if sel < 0 {
+		sel = -sel
+	}
+	e := search.New(tt * 1024)
+	for i := 0; i < k; i++ {
+		b := sbBoard(roots[(sel+7*i)%len(roots)])
+		if (sel+i)%3 == 0 {
+			e.Go(b, search.WithDepth(1), search.WithOutput(nil))
+		} else {
+			e.Go(b, search.WithNodes(1+(sel+13*i)%50), search.WithOutput(nil))
+		}
+	}
+	if r.StopKind == 1 {
+		sbUCI(e, []string{"ucinewgame"})
+	} else {
+		e.Clear()
+	}
+	gen := e.VerifGen()
+	f := search.New(tt * 1024)
+	digestEq := 2
+	he, oke := sbStateHash(e)
+	hf, okf := sbStateHash(f)
+	if oke && okf {
+		digestEq = 0
+		if he == hf {
+			digestEq = 1
+		}
+	}
+	follow := func(s *search.Search) []sbStep {
+		return sbPlay(s, r.Root, 1, func(i int) ([]search.Option, bool) {
+			o := sbLimitOpts(r)
+			if r.Nodes >= 0 {
+				o = append(o, search.WithNodes(r.Nodes))
+			}
+			if r.SoftNodes >= 0 {
+				o = append(o, search.WithSoftNodes(r.SoftNodes))
+			}
+			return o, true
+		})
+	}
+	fe, ff := follow(e), follow(f)
+	st, wh := sbCompareSteps(ff, fe, false)
+	nodes := 0
+	if len(ff) > 0 {
+		nodes = ff[0].Nodes
+	}
+	out := &hx.Nums{}
+	out.Int(k, r.StopKind, digestEq, st, wh, nodes, gen)
+	return out.String()
+}
+
+func genC08clear(rng *hx.Rng, n int, tier string, emit func(hx.Input)) {
+	roots := sbRoots()
+	epd := sbEpdRoots()
+	var busy []sbRoot
+	for _, root := range roots {
+		if b := sbBoard(root); sbFinal(b) == 0 && len(sbLegalMoves(b)) >= 8 {
+			busy = append(busy, root)
+		}
+	}
+	ks := []int{0, 1, 2, 255, 256, 257, 511, 512, 513}
+	if tier == "thorough" {
+		ks = append(ks, 767, 768, 769, 1023, 1024, 1025, 2048)
+	}
+	cnt := 0
+	one := func(k, via int) {
+		var root sbRoot
+		if len(epd) > 0 && rng.Chance(0.5) {
+			root = epd[rng.Intn(len(epd))]
+		} else {
+			root = busy[rng.Intn(len(busy))]
+		}
+		r := sbReq{TTKB: 32, Warm: k, Nodes: -1, SoftNodes: -1, StopKind: via, StopArg: rng.Intn(1000), Root: root}
+		if rng.Chance(0.25) {
+			r.TTKB = 1024
+		}
+		tags := []string{"clear"}
+		if via == 1 {
+			tags = []string{"ucinewgame"}
+		}
+		switch rng.Intn(3) {
+		case 0:
+			r.Nodes = 1500 + rng.Intn(4000)
+			tags = append(tags, "follow:hard")
+		case 1:
+			r.SoftNodes = 1000 + rng.Intn(3000)
+			r.Nodes = 10 * r.SoftNodes
+			tags = append(tags, "follow:soft")
+		default:
+			r.HasDepth, r.Depth, r.Nodes = true, 3+rng.Intn(3), 20000
+			tags = append(tags, "follow:depth")
+		}
+		switch {
+		case k == 0:
+			tags = append(tags, "k=0")
+		case k%256 == 0:
+			tags = append(tags, "k=multiple-of-256")
+		default:
+			tags = append(tags, "k=other")
+		}
+		emit(hx.Input{In: r.encode().String(),
+			Desc: r.desc() + " (warm = k tiny searches before the clear, stop = 0 Clear / 1 ucinewgame, stop-arg = selector)",
+			Tags: tags, NonTrivial: k > 0, Key: fmt.Sprintf("%d/%d/%d/%s", k, via, r.StopArg, root.Fen)})
+		cnt++
+	}
+	for _, k := range ks {
+		one(k, 0)
+	}
+	for _, k := range ks {
+		if cnt >= n {
+			return
+		}
+		one(k, 1)
+	}
+	for cnt < n {
+		k := rng.Intn(601)
+		if rng.Chance(0.2) {
+			k = 256 * (1 + rng.Intn(2)) // the generation counter is a byte
+		}
+		one(k, rng.Intn(2))
 	}
 }
